@@ -102,7 +102,9 @@ func (c *c02) world() *c02world {
 	st := state.NewState()
 	cfg := &interfaces.Config{
 		InstanceId: spi.InstanceId,
-		Membership: &spi.Membership{Me: c.ids[0], Committee: func(h uint64) []interfaces.CommitteeMember {
+		// (in half of the worlds the committee contract is keyed by the previous block's reference time, as a time-keyed
+		// contract is: asking it with another block's reference time yields another height's committee)
+		Membership: &spi.Membership{Me: c.ids[0], KeyedByRefTime: c.rng.Intn(2) == 0, Committee: func(h uint64) []interfaces.CommitteeMember {
 			if m, ok := wd.comm[h]; ok {
 				return m
 			}
